@@ -662,7 +662,7 @@ static int parse_ldm_stm(
   if (strncmp(instr, "ea", 2) == 0)
   {
     if (ls == 0) { instr[0] = 'i'; instr[1] = 'a'; }
-    else { instr[0] = 'b'; instr[1] = 'b'; }
+    else { instr[0] = 'd'; instr[1] = 'b'; }
   }
 
   //if (instr[0] == 's') { s = 1; instr++; }
